@@ -15,7 +15,23 @@ def run_case(case):
     payload = b"".join(_to_bytes(d) for d, _ in case["calls"])
     rec["payload"] = payload
     try:
-        q = qrcode.QRCode(version=case["version"], error_correction=case["level"], mask_pattern=case["mask"])
+        pre = case.get("prehistory")
+        if pre:
+            # "every symbol" includes symbols compiled by an object that compiled something else before: compile under other
+            # settings and data first, then re-configure the same object by clear() + attribute assignment
+            q = qrcode.QRCode(version=pre["version"], error_correction=pre["level"], mask_pattern=pre["mask"])
+            q.add_data(pre["data"], optimize=0)
+            try:
+                q.make()
+            except Exception:  # noqa
+                pass
+            if pre.get("clear", True):
+                q.clear()
+            else:
+                q.data_list = []; q.data_cache = None
+            q.version = case["version"]; q.error_correction = case["level"]; q.mask_pattern = case["mask"]
+        else:
+            q = qrcode.QRCode(version=case["version"], error_correction=case["level"], mask_pattern=case["mask"])
         for d, opt in case["calls"]:
             q.add_data(d, optimize=opt)
         rec["segs"] = [(s.mode, bytes(s.data)) for s in q.data_list]
@@ -105,12 +121,16 @@ def parse_spec_read(rep):
 def case_repr(case):
     c = dict(case)
     c["calls"] = [[d.hex() if isinstance(d, bytes) else {"str": d}, o] for d, o in case["calls"]]
+    if c.get("prehistory"):
+        c["prehistory"] = dict(c["prehistory"], data=c["prehistory"]["data"].hex())
     return c
 
 
 def case_from_repr(c):
     c = dict(c)
     c["calls"] = [(bytes.fromhex(d) if isinstance(d, str) else d["str"], o) for d, o in c["calls"]]
+    if c.get("prehistory"):
+        c["prehistory"] = dict(c["prehistory"], data=bytes.fromhex(c["prehistory"]["data"]))
     return c
 
 
@@ -131,7 +151,12 @@ def std_cases(tier, seed, caps=None, cross_all=False):
     if tier != "thorough":
         # keep the quick tier quick: thin out large-version boundary cases
         cases = [c for c in cases if (c["version"] or 0) <= 30 or rnd.random() < 0.5]
-    cases += gens.random_cases(rnd, nrand)
+    rc = gens.random_cases(rnd, nrand)
+    for c in rc[::4]:
+        c["prehistory"] = dict(version=rnd.choice([None, 1, 2, 5, 7, 10]), level=rnd.randrange(4), mask=rnd.choice([None, 0, 5]),
+                               data=gens.payload(rnd, rnd.choice(["lower", "digits", "bytes"]), rnd.randrange(1, 30)), clear=rnd.random() < 0.7)
+        c["tag"] = "random-reused-object"
+    cases += rc
     cc = gens.class_crossing_cases(rnd, caps)
     cases += cc if (tier == "thorough" or cross_all) else rnd.sample(cc, 120)
     # fixed corner cases (corpus of past findings)
